@@ -1832,10 +1832,11 @@ func (query *Query) exec() (result any, err error) {
 		rs = nil
 		goto FINALIZE
 	}
+	rs = rs[offset:]
 	if limit >= len(rs) {
 		limit = len(rs)
 	}
-	rs = rs[offset:][:limit]
+	rs = rs[:limit]
 FINALIZE:
 	if query.options.completed != nil {
 		query.options.completed()
